@@ -189,6 +189,7 @@ class TU:
     # ------------------------------------------------------------------ statements
     def function(self, decl):
         self.lambda_vars = False
+        self.exact_returns = 0
         parts = []
         for c in kids(decl):
             if c.get("kind") == "CXXCtorInitializer":
@@ -201,7 +202,9 @@ class TU:
         top = kids(body)
         rets = self.count(body, "ReturnStmt")
         tail = 1 if (top and top[-1].get("kind") == "ReturnStmt") else 0
-        return ("ret", t) if (rets - tail > 0 and t != EPS) else t
+        # returns that end an else-less `if` branch were translated exactly (the rest of the block became the other
+        # alternative, see block()), so they are no reason for the prefix closure
+        return ("ret", t) if (rets - tail - self.exact_returns > 0 and t != EPS) else t
 
     def count(self, n, kind):
         if n.get("kind") == "LambdaExpr":
@@ -226,8 +229,48 @@ class TU:
                 out.append(self.txn_init(v))
                 out.append(("scope", self.block(stmts[i + 1:])))
                 return seq(out)
+            g = self.guard_return(s)
+            if g is not None and i + 1 < len(stmts):
+                # `if (c) { A; return …; }  B…`  is exactly  `c; (A | B…)`: the statements after an else-less `if` whose
+                # branch always returns run only when the branch was not taken
+                pre, then_body, nret = g
+                saved = self.exact_returns
+                rest = self.block(stmts[i + 1:])
+                self.exact_returns = max(self.exact_returns, saved) + nret
+                out += pre
+                out.append(alt([then_body, rest]))
+                return seq(out)
             out.append(self.stmt(s))
         return seq(out)
+
+    def guard_return(self, s):
+        """(pre, then-branch, number of returns in it) for an else-less IfStmt whose then-branch is `return …;` or a
+        block whose last statement is a return and that holds no other return / loop / switch / try; else None"""
+        if s.get("kind") != "IfStmt" or s.get("hasElse"):
+            return None
+        p = kids(s)
+        pre, th = p[:-1], p[-1]
+        if th.get("kind") == "ReturnStmt":
+            body = th
+        elif th.get("kind") == "CompoundStmt" and kids(th) and kids(th)[-1].get("kind") == "ReturnStmt":
+            body = th
+        else:
+            return None
+        if self.count(th, "ReturnStmt") != 1:
+            return None
+        for bad in ("ForStmt", "WhileStmt", "DoStmt", "CXXForRangeStmt", "SwitchStmt", "CXXTryStmt", "GotoStmt"):
+            if self.count(th, bad):
+                return None
+        if self.txn_decl_inside(th):
+            return None
+        return [self.stmt(x) for x in pre], self.stmt(body), 1
+
+    def txn_decl_inside(self, n):
+        if n.get("kind") == "LambdaExpr":
+            return False
+        if self.txn_decl(n) is not None:
+            return True
+        return any(self.txn_decl_inside(c) for c in kids(n))
 
     def txn_init(self, v):
         init = skip_casts(kids(v)[0]) if kids(v) else None
